@@ -3,6 +3,11 @@ package main
 // Overlay mutants of C14: breaking changes each rule must report, and behaviour-preserving rewrites that must stay
 // silent (Expect: ""). The texts below are exact pieces of fabio's sources.
 
+import (
+	"os"
+	"strings"
+)
+
 const (
 	c14fRoutecmd = "registry/consul/routecmd.go"
 	c14fService  = "registry/consul/service.go"
@@ -122,7 +127,18 @@ const (
 )
 
 func c14mutants() []mutant {
-	return append(c14mutants1(), c14mutants2()...)
+	all := append(append(append(c14mutants1(), c14mutants2()...), c14mutants3()...), c14mutants3b()...)
+	// development aid: C14_MUTANTS=<text> keeps the mutants whose name contains the text
+	if want := os.Getenv("C14_MUTANTS"); want != "" {
+		var kept []mutant
+		for _, m := range all {
+			if strings.Contains(m.Name, want) {
+				kept = append(kept, m)
+			}
+		}
+		return kept
+	}
+	return all
 }
 
 func c14mutants1() []mutant {
